@@ -200,7 +200,7 @@ func oneLoopRun(r *Rng, out *AreaOut, idx int) (string, string, bool, error) {
 	}
 	// a large fleet: a dozen peers' snapshots become ready in the same pass (more than the loop loads in a row
 	// when it has local changes pending)
-	burst := !script && !forcedMode && r.Chance(7)
+	burst := !script && !forcedMode && r.Chance(14)
 	burstDone := false
 	if burst {
 		K, quiet = 120, 90
@@ -341,6 +341,8 @@ func oneLoopRun(r *Rng, out *AreaOut, idx int) (string, string, bool, error) {
 						pa = 35
 					case "load.begin", "send.begin":
 						pa = 30
+					case "boot.capture", "boot.send": // between the loop's first look at the LMDB and its start-up pass
+						pa = 40
 					case "check.info", "loop.sleep":
 						pa = 18
 					}
